@@ -36,7 +36,9 @@ MSGS = ['bad', '', 'a: b', 'l1\nl2', 'x ... y', 'it is 3.5',
         # a report with many fields (a want may elide every value)
         'f1=10 f2=20 f3=30 f4=40 f5=50 f6=60 f7=70 f8=80 f9=90 f10=100 f11=110 f12=120 done',
         # a long report with paragraphs (a want spells the empty lines <BLANKLINE>)
-        '\n\n'.join('paragraph %d' % i for i in range(1, 13))]
+        '\n\n'.join('paragraph %d' % i for i in range(1, 13)),
+        # words that end in u / b in front of an apostrophe, after a letter that is not ASCII (no string prefix: part of the word)
+        'le caf\xe9u\'s menu and the cl\xfcb"s door']
 
 LINE_SYMS = [HDR, HDR + '  ', HDR + ' junk', 'Traceback (innermost last):', '  File "x", line 1, in f', 'Err: msg',
              'mod.Err: a: b', '...', '', '    word', '_x', '1x', '-x', 'Traceback (most recent call last)']
@@ -75,6 +77,10 @@ def want_forms(printed, msg, cls):
         bl = HDR + '\n' + '\n'.join(l if l.strip() else '<BLANKLINE>' for l in ll.split('\n'))
         return {'none': None, 'blanklines': bl, 'nontraceback': 'some expected output',
                 'wrongmsg': bl.replace('paragraph 11', 'paragraph eleven')}
+    if '\xe9u\'' in ll:
+        # the want misspells the word: the letter in front of the apostrophe is missing
+        forms['letter_dropped'] = HDR + '\n' + ll.replace('\xe9u\'', '\xe9\'', 1)
+        forms['letter_dropped2'] = HDR + '\n' + ll.replace('\xfcb"', '\xfc"', 1)
     if msg.count('=') >= 10:
         # every value elided: as many wildcards as fields
         import re as _re
@@ -99,7 +105,7 @@ def expected(form, flags, cls, msg):
         return ('pass', None)
     if form == 'dots':
         return ('pass', None)          # the stack between header and final line is never compared
-    if form == 'wrongmsg':
+    if form in ('wrongmsg', 'letter_dropped', 'letter_dropped2'):
         return ('pass', None) if ied else ('fail', 'gotwant')
     if form == 'wrongtype':
         return ('fail', 'gotwant')
